@@ -4,6 +4,7 @@ import shutil
 
 import gffutils
 
+from gv.engine.choice import EngineError
 from gv.engine import sched
 from gv.model import dbutil
 
@@ -136,7 +137,20 @@ def reference(ctx, job):
         if job in EXPECT_FAIL:
             ctx.memo[key] = None
             return None
-        make_import("path" if kind in ("force", "url", "debug") else kind, lines, out, d, 0)()
+        # the solitary run happens in a process of its own: whatever the library remembers of an import (names, caches) must
+        # not be carried into the controlling process, whose first import is the warm-up inside the shared directory
+        pid = os.fork()
+        if pid == 0:
+            code = 0
+            try:
+                make_import("path" if kind in ("force", "url", "debug") else kind, lines, out, d, 0)()
+            except BaseException:
+                code = 1
+            finally:
+                os._exit(code)
+        _, status = os.waitpid(pid, 0)
+        if status != 0:
+            raise EngineError("solitary reference import of %s failed" % job)
         ctx.memo[key] = dbutil.canon(out)
     return ctx.memo[key]
 
@@ -148,6 +162,11 @@ def run_imports(ch, ctx, jobs):
     outdir = os.path.join(wd, "out")
     for d in (shared, indir, outdir):
         os.makedirs(d)
+    if "all_refs" not in ctx.memo:
+        # all solitary runs are made first, each in a child forked while this process has not imported anything yet
+        for j in sorted(JOBS):
+            reference(ctx, j)
+        ctx.memo["all_refs"] = True
     refs = [reference(ctx, j) for j in jobs]
     # the controlling process itself ran an import with this very temp directory before starting the workers
     import tempfile
@@ -156,6 +175,9 @@ def run_imports(ch, ctx, jobs):
     try:
         os.makedirs(os.path.join(outdir, "warm"))
         make_import("path", GFF_B, os.path.join(outdir, "warm", "annotation.db"), indir, 99)()
+    except Exception as e:
+        ctx.fail("import-in-the-controlling-process-failed", dict(exc=type(e).__name__), message=str(e)[:300], jobs=list(jobs))
+        return
     finally:
         tempfile.tempdir = saved
     pre = sorted(os.listdir(shared))
@@ -283,21 +305,33 @@ def body(ch, ctx):
         ctx.outcome("no-such-first-moves")
 
 
-def run(tier, seed):
-    """Three explorations with different deviation bounds, merged into one report."""
-    import time
-    from gv.engine import pool, report
-
-    t0 = time.time()
+def groups_of(tier):
     b = dev_bound(tier)
     allsh = shards(tier)
-    groups = [
+    return [
         ("imports2", [s for s in allsh if s[0] in ("imports2", "imports1")], None),
         ("imports2torn", [s for s in allsh if s[0] == "imports2torn"], b["imports2torn"]),
         ("imports3", [s for s in allsh if s[0] == "imports3"], b["imports3"]),
         ("readers2", [s for s in allsh if s[0] == "readers" and s[1] == 2], b["readers2"]),
         ("readers3", [s for s in allsh if s[0] == "readers" and s[1] == 3], b["readers3"]),
     ]
+
+
+def history_context(v, tier):
+    """Shard list and deviation bound of the group a recorded violation came from (for order-dependent replays)."""
+    for name, shs, bound in groups_of(tier):
+        if name == v.get("group"):
+            return shs, bound
+    raise EngineError("replay file names no exploration group")
+
+
+def run(tier, seed):
+    """Five explorations with different deviation bounds, merged into one report."""
+    import time
+    from gv.engine import pool, report
+
+    t0 = time.time()
+    groups = groups_of(tier)
     from gv.engine import choice
 
     total = choice.ShardResult()
@@ -308,6 +342,9 @@ def run(tier, seed):
         per[name] = dict(wall_s=round(time.time() - tg, 1), executions=r.executions, states=r.nodes, deviation_bound=bound, pruned_by_bound=r.pruned_by_bound,
                          interleaved=r.counters.get("interleaved", 0), name_collisions=r.counters.get("name_collisions", 0),
                          max_depth=r.maxdepth)
+        for _k, (_n, _vs) in r.violations.items():
+            for _v in _vs:
+                _v["group"] = name
         total.merge(r)
         total.nodes += 1
         total.edges += len(shs)
@@ -318,7 +355,18 @@ def run(tier, seed):
     random.Random(seed).shuffle(samples)
 
     def confirm(v):
-        return pool.replay_isolated(body, v, tier, seed)
+        if pool.replay_isolated(body, v, tier, seed):
+            return True
+        # not reproducible as a single execution: replay what the reporting worker had explored before, in a fresh process
+        if v.get("shard_index") is not None and v.get("group"):
+            shs, bound = history_context(v, tier)
+            if pool.replay_with_history(body, shs, v, tier, seed, bound):
+                v["needs_history"] = True
+                v["detail"] = dict(v.get("detail") or {}, order_dependent=(
+                    "does not reproduce as a single execution; reproduces when the %d shard(s) explored earlier by the same "
+                    "worker process are executed first (state kept between independent imports)" % len(v.get("worker_history") or [])))
+                return True
+        return False
 
     vac = []
     if per["imports2"]["interleaved"] == 0 or per["imports2"]["name_collisions"] == 0:
